@@ -562,9 +562,15 @@ impl Resolver<'_> {
                 let by = by.ty.clone().unwrap();
                 let by = by.kind.into_tuple().unwrap();
 
+                let pipeline_span = pipeline.span;
                 let pipeline = pipeline.ty.clone().unwrap();
                 let pipeline = pipeline.kind.into_function().unwrap().unwrap();
-                let pipeline = pipeline.return_ty.unwrap().into_relation().unwrap();
+                let pipeline = (pipeline.return_ty)
+                    .and_then(|ty| ty.into_relation())
+                    .ok_or_else(|| {
+                        Error::new_simple("expected the pipeline of `group` to return a relation")
+                            .with_span(pipeline_span)
+                    })?;
 
                 Some(Ty::new(TyKind::Array(Some(Box::new(Ty::new(
                     ty_tuple_kind([by, pipeline].concat()),
@@ -682,7 +688,7 @@ impl TransformCall {
 
         fn lineage_or_default(expr: &Expr) -> Result<Lineage> {
             expr.lineage.clone().ok_or_else(|| {
-                Error::new_simple("expected {expr:?} to have table type").with_span(expr.span)
+                Error::new_simple("expected this expression to be a relation").with_span(expr.span)
             })
         }
 
@@ -708,7 +714,7 @@ impl TransformCall {
                 // pipeline's body is resolved, just use its type
                 let Func { body, .. } = pipeline.kind.as_func().unwrap().as_ref();
 
-                let partition_lin = lineage_or_default(body).unwrap();
+                let partition_lin = lineage_or_default(body)?;
                 lineage.columns.extend(partition_lin.columns);
 
                 log::debug!(".. type={lineage}");
@@ -718,7 +724,7 @@ impl TransformCall {
                 // pipeline's body is resolved, just use its type
                 let Func { body, .. } = pipeline.kind.as_func().unwrap().as_ref();
 
-                lineage_or_default(body).unwrap()
+                lineage_or_default(body)?
             }
             Aggregate { assigns } => {
                 let mut lineage = lineage_or_default(&self.input)?;
